@@ -293,28 +293,43 @@ package risc
 //@   mode int
 //@   requires ctx != nil
 //@   ensures forall j :: 0 <= j && j < len(result) ==> justified(ctx, runner, result[j])
-//@   ensures forall r RegisterType :: isRAW(ctx, runner, r) ==> (exists j :: 0 <= j && j < len(result) && result[j].Type == ReadAfterWrite && result[j].Register == r)
-//@   ensures forall r RegisterType :: isWAW(ctx, runner, r) ==> (exists j :: 0 <= j && j < len(result) && result[j].Type == WriteAfterWrite && result[j].Register == r)
-//@   ensures forall r RegisterType :: isWAR(ctx, runner, r) ==> (exists j :: 0 <= j && j < len(result) && result[j].Type == WriteAfterRead && result[j].Register == r)
 //@   ensures result1 != nil && fresh(result1)
+//@   ensures !(ReadAfterWrite in result1) ==> (forall r RegisterType :: !isRAW(ctx, runner, r))
+//@   ensures !(WriteAfterWrite in result1) ==> (forall r RegisterType :: !isWAW(ctx, runner, r))
+//@   ensures !(WriteAfterRead in result1) ==> (forall r RegisterType :: !isWAR(ctx, runner, r))
 //@   ensures forall t HazardType :: (t in result1) ==> result1[t]
-//@   ensures forall t HazardType :: (t in result1) == (exists j :: 0 <= j && j < len(result) && result[j].Type == t)
+//@   ensures forall j :: 0 <= j && j < len(result) ==> result[j].Type in result1
+//@   ensures len(result) == 0 ==> (forall t HazardType :: !(t in result1))
 //@   ensures len(result) <= 6
 //@   assigns nothing
 //@   loop 0: invariant len(_range0) <= 2 && (forall r RegisterType :: occ(_range0, r) == readCount(runner, r)) && len(hazards) <= _idx0
 //@   loop 0: invariant (cap(hazards) == 0 || fresh(hazards)) && fresh(hazardTypes)
 //@   loop 0: invariant forall j :: 0 <= j && j < len(hazards) ==> justified(ctx, runner, hazards[j])
-//@   loop 0: invariant forall i :: 0 <= i && i < _idx0 && isRAW(ctx, runner, _range0[i]) ==> (exists j :: 0 <= j && j < len(hazards) && hazards[j].Type == ReadAfterWrite && hazards[j].Register == _range0[i])
-//@   loop 0: invariant forall t HazardType :: (t in hazardTypes) ==> hazardTypes[t]
-//@   loop 0: invariant forall t HazardType :: (t in hazardTypes) == (exists j :: 0 <= j && j < len(hazards) && hazards[j].Type == t)
+//@   loop 0: invariant forall i :: 0 <= i && i < _idx0 && isRAW(ctx, runner, _range0[i]) ==> ReadAfterWrite in hazardTypes
+//@   loop 0: invariant forall t HazardType :: (t in hazardTypes) ==> hazardTypes[t] && t == ReadAfterWrite
+//@   loop 0: invariant forall j :: 0 <= j && j < len(hazards) ==> hazards[j].Type in hazardTypes
+//@   loop 0: invariant len(hazards) == 0 ==> (forall t HazardType :: !(t in hazardTypes))
 //@   loop 1: invariant len(_range1) <= 2 && (forall r RegisterType :: occ(_range1, r) == writeCount(runner, r)) && len(hazards) <= 2 + 2 * _idx1
 //@   loop 1: invariant (cap(hazards) == 0 || fresh(hazards)) && fresh(hazardTypes)
 //@   loop 1: invariant forall j :: 0 <= j && j < len(hazards) ==> justified(ctx, runner, hazards[j])
-//@   loop 1: invariant forall r RegisterType :: isRAW(ctx, runner, r) ==> (exists j :: 0 <= j && j < len(hazards) && hazards[j].Type == ReadAfterWrite && hazards[j].Register == r)
-//@   loop 1: invariant forall i :: 0 <= i && i < _idx1 && isWAW(ctx, runner, _range1[i]) ==> (exists j :: 0 <= j && j < len(hazards) && hazards[j].Type == WriteAfterWrite && hazards[j].Register == _range1[i])
-//@   loop 1: invariant forall i :: 0 <= i && i < _idx1 && isWAR(ctx, runner, _range1[i]) ==> (exists j :: 0 <= j && j < len(hazards) && hazards[j].Type == WriteAfterRead && hazards[j].Register == _range1[i])
+//@   loop 1: invariant !(ReadAfterWrite in hazardTypes) ==> (forall r RegisterType :: !isRAW(ctx, runner, r))
+//@   loop 1: invariant forall i :: 0 <= i && i < _idx1 && isWAW(ctx, runner, _range1[i]) ==> WriteAfterWrite in hazardTypes
+//@   loop 1: invariant forall i :: 0 <= i && i < _idx1 && isWAR(ctx, runner, _range1[i]) ==> WriteAfterRead in hazardTypes
 //@   loop 1: invariant forall t HazardType :: (t in hazardTypes) ==> hazardTypes[t]
-//@   loop 1: invariant forall t HazardType :: (t in hazardTypes) == (exists j :: 0 <= j && j < len(hazards) && hazards[j].Type == t)
+//@   loop 1: invariant forall j :: 0 <= j && j < len(hazards) ==> hazards[j].Type in hazardTypes
+//@   loop 1: invariant len(hazards) == 0 ==> (forall t HazardType :: !(t in hazardTypes))
+
+//@ func (*Context).IsDataHazard2
+//@   mode int
+//@   requires ctx != nil
+//@   ensures result == (result1 != 0) && result1 == len(result2) && result1 <= 2
+//@   ensures forall j :: 0 <= j && j < len(result2) ==> isRAW(ctx, runner, result2[j])
+//@   ensures !result ==> (forall r RegisterType :: !isRAW(ctx, runner, r))
+//@   assigns nothing
+//@   loop 0: invariant len(_range0) <= 2 && (forall r RegisterType :: occ(_range0, r) == readCount(runner, r)) && len(hazards) <= _idx0
+//@   loop 0: invariant (cap(hazards) == 0 || (fresh(hazards) && !sameArray(hazards, _range0))) && allocated(_range0)
+//@   loop 0: invariant forall j :: 0 <= j && j < len(hazards) ==> isRAW(ctx, runner, hazards[j])
+//@   loop 0: invariant len(hazards) == 0 ==> (forall i :: 0 <= i && i < _idx0 ==> !isRAW(ctx, runner, _range0[i]))
 
 // ---- generated by /verif/contracts/gen_risc.py from the RV32IM table ----
 
